@@ -309,7 +309,8 @@ func init() {
 				return nil, err
 			}
 			v := variants[idx%len(variants)]
-			runs := []ovObs{runOverlay(&c, v[0], v[1] == "1", e.Tmp, true)}
+			extras := e.Args["extras_every"] == "" || e.Args["extras_every"] == "1" || idx%2 == 0
+			runs := []ovObs{runOverlay(&c, v[0], v[1] == "1", e.Tmp, extras)}
 			if e.Args["allvariants"] == "1" {
 				for _, w := range variants {
 					if w != v {
